@@ -373,6 +373,16 @@ def oracle_c04(d, case):
         timeout = numeric(node.get("test_timeout"), 3600)
         tries = numeric(node.get("max_tries"), 1)
         allowed.add(round(max(timeout * tries / 1000, 0.1), 2))
+    # looking for other work: while a test that later ran with everything it needed was available and not yet started,
+    # a compatible worker must not keep bouncing off occupied tests
+    idle = other_work_windows(d)
+    counters["max_consecutive_bounces_while_other_work_waited"] = max([n for n, _ in idle] + [0])
+    counters["bounce_windows_with_other_work"] += len(idle)
+    for number, description in idle:
+        # bounded progress: a few bounces may pass before the worker's next pick reaches the waiting test
+        if number > IDLE_BOUNCE_BOUND and not overrun:
+            findings.append(("worker kept bouncing off an occupied test instead of taking other work that was ready", description))
+            break
     for event in d.events:
         if event["k"] == "sleep":
             counters["bounces_observed"] += event["n"]
@@ -380,6 +390,45 @@ def oracle_c04(d, case):
                 findings.append(("back-off period differs from the documented one",
                                  f"worker {event['task']} slept {event['delay']} (allowed {sorted(allowed)})"))
     return findings, counters
+
+
+IDLE_BOUNCE_BOUND = 10
+
+
+def other_work_windows(d):
+    """(consecutive bounces, description) of back-off windows of a worker that lie entirely within a period in which a test
+    the worker is compatible with was ready (its producers had finished) and not yet started by anybody."""
+    windows = []
+    ends = collections.defaultdict(list)
+    for unit in d.units:
+        # a producer is done with when its last try has ended
+        for entry in unit.get("sets", []):
+            ends[(entry["obj"], entry["state"])].append(unit["t1"] if unit["t1"] is not None else float("inf"))
+    first_start = {}
+    for unit in d.units:
+        first_start.setdefault(unit["cls"], unit)
+    compatible = collections.defaultdict(set)
+    for node in d.nodes:
+        if not node["flat"] and not node["clone_source"]:
+            compatible[node["cls"]].add(node["worker"])
+    ready = {}
+    for cls, unit in first_start.items():
+        if unit.get("sets") or unit["is_prenode"] or not all(r["found"] for r in unit["req"]) or unit["scope"] != ("run",):
+            continue
+        produced = [max(ends[(r["obj"], r["state"])]) for r in unit["req"] if ends.get((r["obj"], r["state"]))]
+        if len(produced) < len(unit["req"]) or not produced:
+            # readiness is only known for tests all of whose required states were produced in this run
+            continue
+        ready[cls] = (max(produced), unit["t0"])
+    for event in d.events:
+        if event["k"] != "sleep" or event["delay"] == 30:
+            continue
+        begin, end = event["t"], event["t_last"] + event["delay"]
+        for cls, (since, started) in ready.items():
+            if since <= begin and end <= started and event["task"] in compatible[cls]:
+                windows.append((event["n"], f"{event['task']} bounced {event['n']} times in [{begin}, {end}] while {cls} waited since {since} until {started}"))
+                break
+    return windows
 
 
 # ---------------------------------------------------------------------------------------------------------
